@@ -22,7 +22,7 @@ C = {
          "All patterns of the documented grammar up to a size bound x all addresses over an 11-letter alphabet up to length 4 (thorough 5) x 9 type strings (2.6e8 / 2.5e10 calls) are decided by rtosc_match and rtosc_match_path and compared with a three-valued reference (must / must not / don't care for type extensions), plus a structured family for indices with leading zeros and up to 9 digits.",
          "reference matcher written from the statement; ambiguous '#N<digit>' patterns not generated"),
  "C06": ("sched+bfs", "stateless schedule exploration with iterated preemption bound + explicit-state BFS to a fixpoint over the real ThreadLink under a controlled scheduler",
-         "The unmodified thread-link.cpp runs with every atomic access, ring memcpy and length scan as a scheduling point of a two-fiber scheduler. Part A explores ALL schedules with up to 2 (thorough 3) preemptions of 13104 harness instances (rings, start offsets, prefill, writer/reader programs); part B explores the full state graph of looping writer and reader on small rings to a fixpoint. Each execution is checked by an online linearizability monitor against the sequential FIFO spec, a vector-clock race detector honouring memory_order, the region invariant and a final drain.",
+         "The unmodified thread-link.cpp runs with every atomic access, ring memcpy and length scan as a scheduling point of a two-fiber scheduler. Part A explores ALL schedules with up to 2 (thorough 3) preemptions of about 19000 harness instances (rings 16x2, 16x3 and the 54-byte ring 18x3, start offsets, prefill, writer/reader programs over 8 kinds of writes incl. blobs and over-long bundles); part B explores the full state graph of looping writer and reader on small rings to a fixpoint. Each execution is checked by an online linearizability monitor against the sequential FIFO spec, a vector-clock race detector honouring memory_order, the region invariant and a final drain.",
          "SC interleavings at hooked accesses + DRF argument; compiler implements C++11 atomics correctly; one writer, one reader"),
  "C07": ("enum", "exhaustive enumeration of all short byte strings + deviation-bounded mutation of all valid small messages, on guard-paged exact-size buffers",
          "ALL byte strings of length 0..7 (thorough 0..9) over a 12-byte alphabet, every single (thorough: every pair of byte) deviation of every valid message of a small family, and size-field edits/truncations of bundles are fed to rtosc_message_length / rtosc_valid_message_p in exact-size buffers touching a PROT_NONE page, with a watchdog for termination; whatever is accepted must decode identically with an independent strict decoder through every accessor, with all pointers inside the buffer.",
@@ -40,7 +40,7 @@ C = {
          "125 (denotation, spelling) items covering every construct of doc/Guide.adoc; all legal sequences of 1..2 items, 3 (thorough 4) over sub-alphabets, each with 0, 1 or 2 token-boundary deviations (blanks, tabs, newlines, comments incl. ones with syntax characters), message forms and the manual's examples verbatim: checker count == slots written, whole text consumed, scanned values == denotation bitwise, reprint scans identically.",
          "denotation known by construction; the manual's ambiguous forms are not generated (listed in the meta file)"),
  "C12": ("bfs", "explicit-state search over application states reached by parameter messages; per state save/parse/load oracle",
-         "Breadth-first search over all states of three macro-built applications reachable by parameter messages up to a depth (2/4/4, thorough 3/5/5, plus root states); in every state the savefile is produced, parsed line-wise by the harness and checked for minimality against defaults computed by the harness, loaded into a fresh instance and compared field by field; negative files (wrong header, other app, unparsable / unaccepted line at every position) must be rejected.",
+         "Breadth-first search over all states of five macro-built applications (flat, preset, tree, synth, big) reachable by parameter messages up to a depth (2/4/4/6/1, thorough 3/5/5/7/2, plus several thousand prepared root states for large arrays, long strings and 290-character paths); in every state the savefile is produced, parsed line-wise by the harness and checked for minimality against defaults computed by the harness, loaded into a fresh instance and compared field by field; negative files (wrong header, other app, unparsable / unaccepted line at every position) must be rejected.",
          "applications apps/save_apps.h follow the documented macro usage; expected defaults come from the app description, not from the library"),
  "C13": ("bfs", "explicit-state search over application states x exhaustive permutation of savefile lines",
          "For every state of C12's space, every permutation of the savefile's message lines (exhaustively up to 5 lines quick / 6 thorough; adjacent transpositions, rotations and reversal beyond - reported as not exhaustive) and every file with one depended-on line deleted is loaded; resulting state and reported count must equal those of the unpermuted file.",
@@ -61,10 +61,10 @@ C = {
          "All absolute paths of 1..6 (thorough 8) components with '..' anywhere for collapsePath (stack-based reference, canaries, exact-size buffers); apropos on every walked address of generated trees satisfying the side condition; path_search over all name sequences up to length 3 (thorough 5) x 7 locations x every needle x 3 options x query flag x both API forms against a reference child search, replies validated with the reference decoder.",
          "AddressSanitizer; reference codec"),
  "C19": ("bfs", "explicit-state BFS over operation histories on the real AutomationMgr with a learn-queue/range reference model and per-state probe sweeps",
-         "For managers (slots, per_slot) in {(2,1),(2,2),(3,1)} (thorough more; (2,1) to a fixpoint) with object memory pre-filled 0x00/0xFF, every history of createBinding/clearSlot/clearSlotSub/gain/offset/handleMidi/NRPN operations up to the stated depth is replayed on a fresh real object; after every operation the learn state is compared with a FIFO model, and in every state a sweep of setSlot values checks address, type, range, monotonicity and the exact linear (1e-5 log) mapping of every emitted message.",
+         "For managers (slots, per_slot) in {(2,1),(2,2),(3,1)} (thorough more; (2,1) to a fixpoint) with object memory pre-filled 0x00/0xFF, every history of createBinding/clearSlot/clearSlotSub/gain/offset/handleMidi/NRPN operations up to the stated depth is replayed on a fresh real object; after every operation the learn state is compared with a FIFO model, and in every state a sweep of setSlot values checks address, type, range, monotonicity and the exact linear (1e-5 log) mapping of every emitted message. Next to the search: every controller number on 3 channels, bound addresses of every length 2..127, integer ranges up to 2^24-1; thorough managers up to 6 slots x 3 sub-automations.",
          "canon leaves out fields no operation reads (listed in the source); re-learn of a bound slot is a don't-care"),
  "C20": ("bfs", "explicit-state BFS over a two-party protocol: real MidiMappernRT and MidiMapperRT joined by harness-owned FIFO channels",
-         "Every interleaving of map/unMap/clear, incoming controller values and deliveries of the two message channels (at most 2 in flight each) up to depth 8 (thorough 12) from the initial and four prepared states is a path of the search over the real objects; a two-sided reference model decides for every controller value which backend message must appear (address, range, monotone value, 7/14 bit) and that unassigned controllers stay silent.",
+         "Every interleaving of map/unMap/clear, incoming controller values and deliveries of the two message channels (at most 2 in flight each) up to depth 8 (thorough 12) from the initial and four prepared states is a path of the search over the real objects; a two-sided reference model decides for every controller value which backend message must appear (address, range, monotone value, 7/14 bit) and that unassigned controllers stay silent. Next to the search: prepared states after 30/31 learn cycles (ring wrap-around), every ordered pair of 41 controllers (CC/NRPN, 3 channels), a learned address of every length 2..900; thorough also 4 addresses x 4 controller ids.",
          "snapshots compared by content (pointers replaced by indices); harness frees snapshots the library leaks"),
 }
 
